@@ -181,6 +181,58 @@ pub fn check(font: &FontRef, man: &Value, axes: &[Axis], out: &mut Out) {
             }
         }
     }
+    // a STAT table written in feature code: its own axis names, axis value names and elided fallback name
+    if let (Ok(stat), Some(fs)) = (font.stat(), man["fea_stat"].as_object()) {
+        out.stat("c18_fea_stat_tables", 1.0);
+        let mut tags: Vec<String> = vec![];
+        if let Ok(sa) = stat.design_axes() {
+            for a in sa {
+                let tag = a.axis_tag().to_string();
+                if let Some(want) = fs["axes"][&tag].as_str() {
+                    out.stat("c18_fea_stat_strings", 1.0);
+                    if get(a.axis_name_id().to_u16()).map(|s| s.as_str()) != Some(want) {
+                        out.viol("C18", format!("STAT axis {tag} is named {:?} but the feature file's STAT table calls it '{want}'", get(a.axis_name_id().to_u16())));
+                    }
+                } else {
+                    out.viol("C18", format!("STAT lists an axis {tag} the feature file's STAT table does not declare"));
+                }
+                tags.push(tag);
+            }
+        }
+        if let Some(id) = stat.elided_fallback_name_id() {
+            out.stat("c18_fea_stat_strings", 1.0);
+            if get(id.to_u16()).map(|s| s.as_str()) != fs["elided"].as_str() {
+                out.viol("C18", format!("STAT elided fallback name is {:?} but the feature file says {:?}", get(id.to_u16()), fs["elided"].as_str()));
+            }
+        }
+        let mut seen = 0usize;
+        if let Some(Ok(values)) = stat.offset_to_axis_values() {
+            for v in values.axis_values().iter().flatten() {
+                let (ai, val, id) = match v {
+                    AxisValue::Format1(t) => (t.axis_index(), t.value().to_f64(), t.value_name_id()),
+                    AxisValue::Format2(t) => (t.axis_index(), t.nominal_value().to_f64(), t.value_name_id()),
+                    AxisValue::Format3(t) => (t.axis_index(), t.value().to_f64(), t.value_name_id()),
+                    AxisValue::Format4(_) => continue,
+                };
+                seen += 1;
+                let tag = tags.get(ai as usize).cloned().unwrap_or_default();
+                let want = fs["values"].as_array().and_then(|l| l.iter().find(|w| w["axis"].as_str() == Some(tag.as_str()) && (f(&w["value"]) - val).abs() < 1e-3)).and_then(|w| w["name"].as_str());
+                out.stat("c18_fea_stat_strings", 1.0);
+                match want {
+                    Some(w) => {
+                        if get(id.to_u16()).map(|s| s.as_str()) != Some(w) {
+                            out.viol("C18", format!("STAT axis value {tag}={val} is named {:?} but the feature file names it '{w}'", get(id.to_u16())));
+                        }
+                    }
+                    None => out.viol("C18", format!("STAT has an axis value {tag}={val} the feature file does not declare")),
+                }
+            }
+        }
+        let declared = fs["values"].as_array().map(|l| l.len()).unwrap_or(0);
+        if seen != declared {
+            out.viol("C18", format!("the feature file's STAT table declares {declared} axis values, the font has {seen}"));
+        }
+    }
     // records the source supplies itself (openTypeNameRecords): counted, and a reference must never land on a source id whose
     // string is not the one the reference stands for (that is the generic reference check above); survival itself is reported
     if let Some(list) = man["name_records"].as_array() {
